@@ -130,7 +130,10 @@ RULE = ("MC: TLC checks C05_Auth/C05_Secrecy (and the other invariants) on Hands
         "static and that is the key the CA signed for the identity (a complete certificate may be refused, compared, or reassembled around the "
         "Noise static: completing and refusing are both allowed when the identity holds the Noise static); the variant that reports a complete "
         "certificate as sent (Impl=\"nobind\") must be refuted. D: content tables without certificate (requireComplete). T: seeded random schedules (up to 3+4 honest machines, 4 adversary machines, byte-level random "
-        "truncations/flips) judged by the reference predicates")
+        "truncations/flips) judged by the reference predicates. W: manager level, complete nodes: which certificates verify is state "
+        "(HsManager.tla trust / Retrust = reload of pki.blocklist); trust is withdrawn and given back while handshakes are pending or "
+        "answered and every recorded step is validated by TLC (a handshake completes only if the certificate verifies when the message "
+        "is handled)")
 ASSUMPTIONS = [
     "verdicts are one-directional (safety): every completion the real code makes must be allowed by the specification; a refusal "
     "where the specification would allow progress only ends that walk (C07's subject)",
@@ -169,11 +172,25 @@ def run(ctx):
         json.dump(plan, f)
     res = ctx.gotest('handshake', 'TestVerif_C05', also=('hs',), timeout=1500)
     finish(ctx, res, 'harness')
+    whole_node(ctx)
     if not ctx.violations:      # vacuity only matters for a run that reports no disagreement
+        ctx.require_actions('retrust-prologue:answer-after-trust-withdrawn', 'ev:Retrust')
         ctx.require_actions('Deliver', 'AdvInit', 'AdvResp', 'Initiate', 'complete', 'matrix', 'T:Deliver', 'T:complete', 'table:nothing',
                             # the certificate-form dimension: complete certificates reached a reader in both roles, form surgery ran
                             'pk:keep', 'pk:swap', 'form:keep->stage1-reader', 'form:keep->stage2-reader', 'form:swap->stage1-reader',
                             'form:swap->stage2-reader', 'op:cert_keep', 'op:cert_swap', 'op:cert_strip', 'complete-cert:v1', 'complete-cert:v2')
+
+
+def whole_node(ctx):
+    """Manager level: which certificates verify is STATE of a node (HsManager.tla variable trust, action Retrust = a reload of
+    pki.ca / pki.blocklist); complete nodes whose trust is withdrawn and given back while handshakes are pending or answered are
+    recorded and every step is validated by TLC (shared recorder of C09/C10/C32)."""
+    from tools.props import _hs
+    if not ctx.quick and not os.environ.get('VERIF_SKIP_MC'):
+        ctx.tlc('MC_HsManager', 'MC_HsManager_trust.cfg', timeout=3000, workers=8)
+    res, tf = _hs.record(ctx, traces=9 if ctx.quick else 40)
+    ctx.traces += _hs.validate(ctx, tf, lambda ln, fl: ln.get('ev') == 'Retrust' or (ln.get('ev') == 'Deliver' and ln.get('kind') == 'handshake'),
+                               strict_backoff=False)
 
 
 META = {
@@ -186,5 +203,5 @@ META = {
             'state graphs is executed on real Machines (real certificates, adversary operations on real bytes at the token offsets); each '
             'completion of the real code must be one the specification allows, and the cross-decrypt matrix must equal the model\'s.',
     'design_ref': '3.2 C05',
-    'note': 'Object level only (handshake.Machine); hostmap contents after HandleIncoming are the subject of C09/C10.',
+    'note': 'Object level (handshake.Machine) plus a whole-node stage in which trust changes while handshakes are pending; hostmap contents after HandleIncoming are the subject of C09/C10.',
 }
